@@ -993,6 +993,16 @@ func (d *codecDriver) rtCase(id string, g *gval, cls string) map[string]any {
 	d.reset()
 	d.env.AddGlobal("v", v)
 	c["um"] = cprojOutcome(d.env, evalSafe(d.env, "(unmsgpack (msgpack v))\n"))
+	// the encoding stays what it was while other values are encoded: decode it afterwards
+	d.reset()
+	d.env.AddGlobal("v", v)
+	um2 := cprojOutcome(d.env, evalSafe(d.env, "(def mv (msgpack v))\n(msgpack (hash zz: 1 yy: \"other\" xx: [1 2 3]))\n(msgpack [9 8 7 \"w\"])\n(json (hash q: 2))\n(unmsgpack mv)\n"))
+	b1, _ := json.Marshal(c["um"])
+	b2, _ := json.Marshal(um2)
+	if string(b1) != string(b2) {
+		// report the later decoding: it is the one that differs from the value
+		c["um"] = um2
+	}
 	return c
 }
 
@@ -1095,7 +1105,8 @@ func init() {
 			emit("b", t, "tree")
 		}
 		// (c) hashes with string keys (JSON-style source literals): well-formedness half only
-		skeyNames := []string{"t", "u v", "Atype2", "k\"q", "b\\s", "n\nl", "\u00e9", "", "a:b", "z"}
+		skeyNames := []string{"t", "u v", "Atype2", "k\"q", "b\\s", "n\nl", "\u00e9", "", "a:b", "z",
+			"growth%", "100%%", "cpu %d", "%s", "%v%v", "a%b", "{0}", "$1", "\\n", "<k>", "k&k", "\t"}
 		for i, kn := range skeyNames {
 			for _, val := range []*gval{gInt(1), gStr("s"), gArr(gInt(1))} {
 				emit("k", gHash("hash", []gkey{{Str: true, N: []byte(kn)}}, val), "strkey")
